@@ -853,6 +853,33 @@ class PyDev:
         return nak
 
 
+class FaultedLink:
+    """The python reference device behind a link with ONE fault (closed loop with the real host).
+
+    As long as the host writes what it wrote in the fault-free run, the i-th write releases the i-th chunk of the faulted recording `t2`
+    (identical history: that IS the device's answer with the fault applied where it was placed).  A fault can change what the host sends next
+    (e.g. a lost answer to the max-packet-size query makes McuBoot fall back to 32-byte packets and re-chunk a UsbDevice read): from the first
+    write that differs, the recording is no longer what a device would answer to THIS host, so the device - which has received every host write
+    intact - answers live; a fault that kills the link (truncate / noresp) keeps it dead."""
+
+    def __init__(self, dev, hid, t2, base_tx, fault):
+        self.dev = PyDev(dev, hid)
+        self.hid, self.t2, self.base, self.i, self.diverged = hid, t2, base_tx, 0, False
+        self.ci = fault.get("chunk", 0)
+        self.dead = fault["kind"] in ("truncate", "noresp")
+
+    def respond(self, w):
+        i = self.i
+        self.i += 1
+        out = self.dev.respond(w)
+        if not self.diverged and i < len(self.base) and i < len(self.t2) and w == self.base[i]:
+            return self.t2[i]
+        self.diverged = True
+        if self.dead and i > self.ci:
+            return [] if self.hid else b""
+        return out
+
+
 def expected_success(op, evs, cfg, verify_ok=True):
     """no-fault pass: does the protocol say this op succeeds?  evs = device events caused by the op."""
     if op["op"] == "efuse_program_once" and op["verify"] and not verify_ok:
@@ -1249,11 +1276,13 @@ def run_case(ck, s, drv, case, live_cache=None, strict_from=None):
     writes_per_op = [len(tx) for (_r, _st, tx, _rd2) in base_real]
     nofault = fault["kind"] == "none"
     t2 = apply_fault(transcript, fault, hid)
-    # 2. real host: the closed-loop run itself, or a replay of the faulted transcript
+    # 2. real host: the closed-loop run itself, or the faulted recording replayed for as long as the host writes what it wrote in the
+    #    fault-free run (FaultedLink); t2 becomes what was actually released per host write (this is what the model host replays)
     if nofault:
         real, leftover = base_real, base_left
     else:
-        real, leftover, _reads = run_real(cfg, t2, ops)
+        base_tx = [w for (_r, _st, tx, _rd2) in base_real for w in tx]
+        real, leftover, _reads, t2 = run_real(cfg, t2, ops, live=FaultedLink(dev, hid, t2, base_tx, fault))
     # 3. model (compare only): the model host on the same transcript (open loop), and - without faults - the model host in closed loop
     #    with the LEAN reference device, which must produce the same conversation as the real host with the python reference device
     ok = True
@@ -1660,18 +1689,20 @@ def corpus_stream(ck, drv):
         return
     s = ck.stream("corpus", "past disagreements / violations (corpus/C10/cases.json), replayed first: same comparisons and oracle as `sequences`; "
                   "short cases also under every enumerated link fault; non-trivial = distinct case")
+    import random as _random
+    crng = _random.Random(ck.rng.getrandbits(32))  # one draw, whatever the size of the corpus: the other streams do not move when it grows
     for ent in _json.load(open(path, encoding="utf-8")).get("cases", []):
         case = ent["case"]
         case["dev"]["props"] = [tuple(x) for x in case["dev"]["props"]]
         case["dev"]["faults"] = [tuple(x) for x in case["dev"]["faults"]]
         cache = {}
         run_case(ck, s, drv, case, cache)
-        s.note((ent.get("id"), "none"))
+        s.note((ent.get("id"), _json.dumps(case.get("fault"), sort_keys=True)))
         hid = case["cfg"]["tr"] == "hid"
         transcript = cache["base"][2]
         size = sum(len(c) if not hid else sum(len(r) for r in c) for c in transcript)
-        if case.get("fault") is None and size <= 400 and case["dev"].get("abort") is None:
-            for fault, strict in enumerate_faults(transcript, hid, ck.rng):
+        if case.get("fault") is None and size <= 800 and case["dev"].get("abort") is None:
+            for fault, strict in enumerate_faults(transcript, hid, crng):
                 run_case(ck, s, drv, dict(case, fault=fault, strict=strict), cache)
                 s.note((ent.get("id"), _json.dumps(fault, sort_keys=True)))
 
